@@ -36,7 +36,7 @@ func init() {
 		if err := json.Unmarshal(raw, &r); err != nil {
 			return &hx.Violation{Kind: "bad-replay", Detail: err.Error()}
 		}
-		for _, s := range historySubjects(true) {
+		for _, s := range c17AllSubjects(true) {
 			if s.Name == r.Subject {
 				s.prepare()
 				h := newSchedHarness(s, r.Threads)
@@ -52,7 +52,7 @@ func init() {
 			Subject string `json:"subject"`
 		}
 		json.Unmarshal(raw, &r)
-		for _, s := range historySubjects(true) {
+		for _, s := range c17AllSubjects(true) {
 			if s.Name == r.Subject {
 				s.prepare()
 				return frozenPass(s)
@@ -206,6 +206,9 @@ func (h *schedHarness) judge(x *explore.Exec, sc *explore.Sched) *hx.Violation {
 	for t, rs := range h.results {
 		for _, r := range rs {
 			if r.err != nil {
+				if h.s.MayRefuse {
+					continue
+				}
 				return mk("schedule-dependent", fmt.Sprintf("%s failed under this schedule (alone it succeeds): %v", r.label, r.err))
 			}
 			if r.outs == nil {
@@ -294,6 +297,9 @@ func frozenPass(s *subject) (v *hx.Violation) {
 			return v
 		}
 		if rerr != nil {
+			if s.MayRefuse {
+				continue
+			}
 			return mk("refused", fmt.Sprintf("Run(%s) on the frozen model failed: %v", which, rerr))
 		}
 		for _, o := range s.Outs {
@@ -381,7 +387,9 @@ func stressPass(s *subject, goroutines, rounds int) *hx.Violation {
 				outs, err := m.Run(feed)
 				var bad string
 				if err != nil {
-					bad = "Run failed: " + err.Error()
+					if !s.MayRefuse {
+						bad = "Run failed: " + err.Error()
+					}
 				} else {
 					for _, o := range s.Outs {
 						got, e := hx.FromG(outs[o])
@@ -417,7 +425,7 @@ func init() {
 			Subject string `json:"subject"`
 		}
 		json.Unmarshal(raw, &r)
-		for _, s := range historySubjects(true) {
+		for _, s := range c17AllSubjects(true) {
 			if s.Name == r.Subject {
 				s.prepare()
 				return stressPass(s, 16, 100)
@@ -463,7 +471,9 @@ func loadStress(s *subject, goroutines, rounds int) *hx.Violation {
 					}
 					outs, err := m.Run(feed)
 					if err != nil {
-						bad = "Run on a concurrently loaded model failed: " + err.Error()
+						if !s.MayRefuse {
+							bad = "Run on a concurrently loaded model failed: " + err.Error()
+						}
 					} else {
 						for _, o := range s.Outs {
 							got, e := hx.FromG(outs[o])
@@ -553,7 +563,7 @@ func c17GlobalsMain() {
 // then 16 goroutines Run it at once. Every result is compared with the reference. Exit 0 / 1 ("COLD-VIOLATION").
 func c17ColdMain(name, mode string) {
 	var subj *subject
-	for _, s := range historySubjects(true) {
+	for _, s := range c17AllSubjects(true) {
 		if s.Name == name {
 			subj = s
 		}
@@ -749,30 +759,39 @@ func globalStatePass(c *hx.Checker, expl []*subject) {
 	}
 }
 
-func exploreSubjects(all []*subject) []*subject {
+// refusableSubjects: requests the pinned tree refuses although ONNX defines them and the reference computes them (the
+// ONNX spelling of activation names). Support for such a request is a typical later addition, and what it adds (a
+// registry entry, a cache) is exactly the kind of state concurrent first uses collide on. A Run of these subjects may
+// fail; every pass still demands that nothing crashes, nothing shared is written and every result that IS returned
+// equals the reference.
+func refusableSubjects() []*subject {
 	var out []*subject
-	seen := map[string]bool{}
-	for _, s := range all {
-		key := s.Name
-		if i := strings.Index(key, "/init-mask="); i >= 0 {
-			key = key[:i]
-			if seen[key] {
-				continue
-			}
-			// prefer the assignment "first tensor input from the caller, every other one a weight"
-			want := "/init-mask=" + map[bool]string{true: "", false: ""}[true]
-			_ = want
+	f := func(salt int, sh ...int) *ref.T { return recFill(ref.F32, sh, salt) }
+	for _, op := range []string{"RNN", "GRU", "LSTM"} {
+		ng := map[string]int{"RNN": 1, "GRU": 3, "LSTM": 4}[op]
+		acts := map[string][]string{"RNN": {"Tanh"}, "GRU": {"Sigmoid", "Tanh"}, "LSTM": {"Sigmoid", "Tanh", "Tanh"}}[op]
+		n := 2
+		if op == "LSTM" {
+			n = 3
 		}
+		oc := &hx.OpCase{Op: op, Attrs: []hx.Attr{hx.AInt("hidden_size", 2), hx.AStrs("activations", acts...)}, NOut: n, Route: "model", Dyn: true,
+			Inputs: hx.ToTJs([]*ref.T{f(1, 3, 2, 2), f(2, 1, ng*2, 2), f(3, 1, ng*2, 2)}), Init: []bool{false, true, true}}
+		model, feed, outNames := hx.SingleNodeModel(oc)
+		s := newSubject("refusable:"+op+"[onnx-spelled-activations]", model, feed, outNames, nil, "op="+op, "single-node", "refusable")
+		s.MayRefuse = true
 		out = append(out, s)
-		seen[key] = true
 	}
 	return out
+}
+
+func c17AllSubjects(thorough bool) []*subject {
+	return append(historySubjects(thorough), refusableSubjects()...)
 }
 
 // c17Subjects: all subjects and the exploration subjects (per operator the role assignment with the most shared
 // weights that still has a caller input; compositions; samples without ndm).
 func c17Subjects(thorough, prepare bool) (subs, expl []*subject) {
-	subs = historySubjects(thorough)
+	subs = c17AllSubjects(thorough)
 	for _, s := range subs {
 		if err := s.prepare(); err != nil {
 			hx.HarnessError("reference cannot evaluate %s: %v", s.Name, err)
@@ -800,6 +819,9 @@ func c17Subjects(thorough, prepare bool) (subs, expl []*subject) {
 	for _, k := range order {
 		if byOp[k].Name == "sample:ndm" {
 			continue
+		}
+		if !thorough && strings.Contains(k, "[elem=") {
+			continue // per-element-type variants: frozen and collector passes in the quick tier, every pass in the thorough tier
 		}
 		expl = append(expl, byOp[k])
 	}
@@ -1008,7 +1030,7 @@ func racePass(c *hx.Checker) {
 
 // c17RaceMain is the body of `mc c17-race` (meant for the -race build).
 func c17RaceMain() {
-	subs := historySubjects(false)
+	subs := c17AllSubjects(false)
 	// cold start first: the very first use of the library in this process is 8 goroutines loading + running at once
 	for _, s := range subs {
 		if s.Name == "sample:gru" && s.prepare() == nil {
